@@ -61,7 +61,7 @@ class Gen:
 
     def custom_nested(self, n):
         if n not in self.nested_cache:
-            d = {'kind': 'bitfield', 'name': self.name('N'), 'base': n,
+            d = {'kind': 'bitfield', 'name': self.name('N'), 'base': n, 'debug': True,
                  'fields': [self.field('all', {'k': 'u', 'n': n}, [('r', 0, n - 1)] if n > 1 else [('s', 0)], acc='rw')]}
             self.nested_cache[n] = self.add(d, 'types')
         return {'k': 'custom', 'name': self.nested_cache[n]['name'], 'n': n, 'opt': False, 'ck': 'bitfield'}
@@ -254,6 +254,123 @@ class Gen:
                     fields.append(f)
             if fields:
                 self.add({'kind': 'bitfield', 'name': self.name('S'), 'base': W, 'fields': fields}, 'F3')
+
+    # -- F4: whole structs (packing, default, debug, docs, builder) -------------------------------
+    def packed_fields(self, W, want_rw_complete, allow_arrays=True, readable_scalar=False):
+        """non-overlapping fields covering [0, W) (complete) or leaving gaps"""
+        rng = self.rng
+        fields = []
+        pos = 0
+        while pos < W:
+            rest = W - pos
+            n = min(rest, rng.choice([1, 1, 2, 3, 4, 5, 7, 8, 8, 9, 12, 16, 24, 32, 33, 64, rest]))
+            kind = rng.random()
+            name = 'f%d' % len(fields)
+            if not want_rw_complete and kind < 0.15:
+                pos += n                      # a gap no field covers
+                continue
+            acc = 'rw' if want_rw_complete else rng.choice(['rw', 'rw', 'rw', 'r', 'w', 'rw'])
+            if readable_scalar:
+                acc = rng.choice(['rw', 'rw', 'r'])
+            if allow_arrays and not readable_scalar and kind > 0.8 and rest >= 4:
+                # an array with stride >= width, disjoint elements
+                m = rng.choice([1, 2, 3, 4, 8])
+                s = m + rng.choice([0, 0, 1])
+                K = max(2, min(rest // s, rng.choice([2, 3, 4])))
+                if (K - 1) * s + m <= rest:
+                    ty = self.type_for_width(m)
+                    e = ('s', pos) if m == 1 else ('r', pos, pos + m - 1)
+                    fields.append(self.field(name, ty, [e], acc=acc, count=K, stride=None if s == m and rng.random() < 0.5 else s))
+                    pos += (K - 1) * s + m if want_rw_complete and s == m else K * s if (K * s) <= rest else (K - 1) * s + m
+                    continue
+            if allow_arrays and kind > 0.65 and n >= 2 and rest >= n + 1:
+                # a non-contiguous field: two or three pieces inside the next n+gap bits
+                span = min(rest, n + rng.choice([0, 1, 2]))
+                rs = self.rand_disjoint_ranges(span, n, rng.randint(2, min(3, n)))
+                ty = self.type_for_width(n, allow_bool=False)
+                fields.append(self.field(name, ty, [self.entry(pos + lo, m) for lo, m in rs], acc=acc, lst=True))
+                if want_rw_complete and span > n:
+                    # fill the holes the list leaves with single-bit fields
+                    used = set()
+                    for lo, m in rs:
+                        used.update(range(pos + lo, pos + lo + m))
+                    for b in range(pos, pos + span):
+                        if b not in used:
+                            fields.append(self.field('f%d' % len(fields), {'k': 'bool'}, [('s', b)], acc='rw'))
+                pos += span
+                continue
+            ty = self.type_for_width(n)
+            e = ('s', pos) if (n == 1 and (ty['k'] == 'bool' or rng.random() < 0.5)) else ('r', pos, pos + n - 1)
+            fields.append(self.field(name, ty, [e], acc=acc))
+            pos += n
+        return fields
+
+    def fam_structs(self, count):
+        rng = self.rng
+        for k in range(count):
+            W = rng.choice([8, 16, 32, 64, 128, 7, 12, 24, 33, 48, 65, 100, 127, rng.randint(2, 128)])
+            mode = ['complete', 'default', 'default-const', 'incomplete', 'debug', 'debug-default', 'docs', 'legacy'][k % 8]
+            debug = mode.startswith('debug')
+            complete = mode in ('complete', 'docs') or (mode == 'legacy' and rng.random() < 0.5)
+            fields = self.packed_fields(W, complete, allow_arrays=not debug, readable_scalar=debug)
+            if not fields:
+                continue
+            d = {'kind': 'bitfield', 'name': self.name('S'), 'base': W, 'fields': fields}
+            if mode in ('default', 'debug-default', 'docs') or (mode == 'legacy'):
+                d['default'] = {'form': 'lit', 'value': rng.getrandbits(W), 'text': None}
+                style = rng.choice(['dec', 'hex', 'hex_'])
+                v = d['default']['value']
+                d['default']['text'] = str(v) if style == 'dec' else hex(v)
+            if mode == 'default-const':
+                d['default'] = {'form': 'const', 'name': 'DEF_%s' % d['name'], 'value': rng.getrandbits(W)}
+            if mode == 'legacy':
+                d['legacy'] = True
+            if debug:
+                d['debug'] = True
+            if mode == 'docs' or rng.random() < 0.2:
+                d['doc'] = True
+                for f in fields:
+                    f['doc'] = True
+            elif rng.random() < 0.3:
+                for f in fields:
+                    f['doc'] = rng.random() < 0.5
+            self.add(d, 'F4', 'accept', [mode])
+        # builder decision boundaries (C14): each variant with and without a default
+        def two(W, fields, tag):
+            for dflt in (False, True):
+                d = {'kind': 'bitfield', 'name': self.name('S'), 'base': W, 'fields': [dict(f) for f in fields]}
+                if dflt:
+                    d['default'] = {'form': 'lit', 'value': rng.getrandbits(W)}
+                self.add(d, 'F4b', 'accept', [tag, 'default' if dflt else 'no-default'])
+        u = lambda n: {'k': 'u', 'n': n}
+        F = self.field
+        for W in ([8, 24] if self.tier == 'quick' else [8, 12, 24, 32, 64, 100, 128]):
+            h = W // 2
+            two(W, [F('a', u(h), [('r', 0, h - 1)]), F('b', u(W - h), [('r', h, W - 1)])], 'complete')
+            two(W, [F('a', u(h), [('r', 0, h - 1)]), F('b', u(W - h - 1), [('r', h, W - 2)])], 'top-bit-uncovered')
+            two(W, [F('a', u(h), [('r', 0, h - 1)]), F('b', u(W - h), [('r', h, W - 1)], acc='r')], 'read-only-part')
+            two(W, [F('a', u(h + 1), [('r', 0, h)]), F('b', u(W - h), [('r', h, W - 1)])], 'fields-overlap-one-bit')
+            two(W, [F('a', u(h), [('r', 0, h - 1)], acc='r'), F('b', u(h), [('r', 0, h - 1)], acc='w'),
+                    F('c', u(W - h), [('r', h, W - 1)])], 'overlap-but-one-writer')
+            two(W, [F('a', u(2), [('s', 0), ('s', 2)], count=3, stride=1, lst=True), F('b', u(W - 5), [('r', 5, W - 1)])],
+                'array-elements-overlap')
+            two(W, [F('a', u(2), [('s', 0), ('s', 4)], count=3, stride=2, lst=True)], 'array-elements-0-and-2-overlap')
+            two(W, [F('a', u(2), [('s', 0), ('s', 3)], count=3, stride=1, lst=True), F('b', u(W - 6), [('r', 6, W - 1)]),
+                    F('c', {'k': 'bool'}, [('s', 5)])], 'array-interleaved-disjoint')
+            two(W, [F('a', u(4), [('r', 0, 2), ('r', 2, 2)], lst=True), F('b', u(W - 3), [('r', 3, W - 1)])], 'list-names-bit-twice')
+            two(W, [F('a', {'k': 'bool'}, [('s', 0)], count=h), F('b', u(W - h), [('r', h, W - 1)])], 'bool-array')
+            two(W, [F('a', {'k': 'bool'}, [('s', 0)], count=h), F('b', u(W - h + 1), [('r', h - 1, W - 1)])], 'bool-array-overlaps-field')
+            two(W, [F('a', u(h), [('r', 0, h - 1)]), F('b', u(W - h), [('r', h, W - 1)], acc='')], 'field-without-access')
+        # debug on things that must not compile with it (C19)
+        self.add({'kind': 'bitfield', 'name': self.name('S'), 'base': 8, 'debug': True,
+                  'fields': [F('a', u(4), [('r', 0, 3)], acc='w'), F('b', u(4), [('r', 4, 7)])]}, 'F4d', 'reject', ['debug-write-only'])
+        self.add({'kind': 'bitfield', 'name': self.name('S'), 'base': 8, 'debug': True,
+                  'fields': [F('a', u(2), [('r', 0, 1)], count=2), F('b', u(4), [('r', 4, 7)])]}, 'F4d', 'reject', ['debug-array'])
+        self.add({'kind': 'bitfield', 'name': self.name('S'), 'base': 8, 'debug': True,
+                  'fields': [F('a', u(4), [('r', 0, 3)], acc=''), F('b', u(4), [('r', 4, 7)])]}, 'F4d', 'reject', ['debug-no-access'])
+        self.add({'kind': 'bitfield', 'name': self.name('S'), 'base': 8, 'debug': True,
+                  'fields': [F('r#type', u(4), [('r', 0, 3)], acc='rw'), F('b', {'k': 'i', 'n': 8}, [('r', 0, 7)], acc='r')]}, 'F4d', 'accept',
+                 ['debug-raw-ident'])
 
     # -- F6: enums ------------------------------------------------------------------------------
     def fam_enums(self):
@@ -472,6 +589,7 @@ class Gen:
         self.fam_single(42 if q else 300)
         self.fam_arrays(20 if q else 200)
         self.fam_lists(24 if q else 250)
+        self.fam_structs(48 if q else 400)
         self.fam_enums()
         self.invalid_enums()
         self.invalid_bitfields(6 if q else 60)
